@@ -183,7 +183,8 @@ struct Runner {
     using KT = typename std::conditional<TRK == 1, Tracked, int>::type;
     using DT = typename std::conditional<TRK != 0, Tracked, int>::type;
     static const int TrkKey = TRK == 1 ? 1 : 0, TrkData = (FL >= 2 && TRK != 0) ? 1 : 0;     // tracked instances per leaf slot / inner slot
-    using Cmp = typename std::conditional<DESC, KGreater, KLess>::type;
+    // the key order is a comparator OBJECT with run-time state (VF_Stateful, armed): a tree that default-constructs its own key_compare orders in reverse
+    using Cmp = VF_Stateful<typename std::conditional<DESC, KGreater, KLess>::type>;
     using SetV = KT;
     using MapV = std::pair<KT, DT>;
     using VT = typename std::conditional<IsMap, MapV, SetV>::type;
@@ -295,7 +296,7 @@ struct Runner {
         aledger().out = shapes ? &out : nullptr;
         { Ev e("reset"); e.boolean("multi", Multi).boolean("map", IsMap).boolean("desc", DESC).num("ls", LS).num("is", IS).boolean("bin", BIN).boolean("tracked", TRK).num("flavour", FL); e.emit(out); }
         long long live0 = (long long)ledger().live.size();
-        c[1] = new C(typename C::allocator_type(1)); c[2] = new C(typename C::allocator_type(2));
+        c[1] = new C(Cmp(1), typename C::allocator_type(1)); c[2] = new C(Cmp(1), typename C::allocator_type(2));
         std::string op;
         while (is >> op) {
             Ev e("op"); e.str("op", op);
@@ -345,7 +346,7 @@ struct Runner {
             } else if (op == "Y") {
                 // copy construction, alternating with construction from the range [begin, end) of the other container (same contents, same order)
                 ci = 2; bool byrange = (++ncopies % 2) == 0;
-                C* nc = byrange ? new C(c[1]->begin(), c[1]->end(), typename C::allocator_type(3)) : new C(*c[1]); delete c[2]; c[2] = nc; e.num("c", 2);
+                C* nc = byrange ? new C(c[1]->begin(), c[1]->end(), Cmp(1), typename C::allocator_type(3)) : new C(*c[1]); delete c[2]; c[2] = nc; e.num("c", 2);
                 if (byrange) e.s.replace(e.s.find("\"op\":\"Y\""), 8, "\"op\":\"YR\"");       // a range construction may order equivalent keys differently from the source
             } else if (op == "A") {
                 long long n; is >> n; e.num("n", n);
